@@ -84,8 +84,36 @@ def _rand_clash_cases(rng, tier):
         yield ("general", {"n": n, "members": members, "num_qubits": rng.choice([None, n]) if via == "function" else None, "via": via})
 
 
+def _iterable_form_cases():
+    """Deterministic family (seed independent): the other documented input form of ObservableCollection -- an iterable of Pauli objects
+    (list / tuple / generator) instead of a PauliList -- on lists that fall into two or more commuting groups.  That form goes through a
+    `set`, so the order in which the distinct observables reach the grouping is arbitrary: "salted" presents Pauli objects (a subclass that
+    only overrides __hash__, deterministically) under several salts, i.e. several reproducible set orders; the plain forms use ordinary
+    Pauli objects (whatever order this process's string hashing gives).  Each list also goes through the PauliList form."""
+    lists = [
+        ["ZI", "IZ", "ZZ", "XX"],                           # the Z group has three members, the X group one
+        ["YZ", "YI", "IZ", "XX"],
+        ["X", "Y", "Z", "I"],                               # three singleton groups + identity
+        ["ZZ", "XX", "YY", "ZI", "IX", "YI"],               # three groups of two
+        ["III", "YII", "IIX", "ZYX", "ZZZ", "IZX"],
+        ["IIZZ", "IZZI", "ZZII", "IXIX", "ZZIZ", "XIXI"],
+        ["XXI", "IXX", "ZZI", "IZZ", "YIY", "ZIZ", "XIX"],
+        ["XYZ", "ZXY", "YZX", "XII", "IZI", "IIY", "XYZ"],  # with a duplicate
+        ["IIII", "XIIZ", "ZIIX", "IYYI", "IXZI", "YIIY", "ZZZZ", "XXXX"],
+    ]
+    out = []
+    for li, labels in enumerate(lists):
+        n = len(labels[0])
+        forms = [("salted", s) for s in range(4)] + [(("list", "tuple", "generator")[li % 3], None), (None, None)]
+        for form, salt in forms:
+            out.append(("collection", {"n": n, "obs": [{"l": l, "p": 0} for l in labels], "prep_seed": 1000 + 7 * li, "form": form,
+                                       "salt": salt, "always_oracle": True}))
+    return out
+
+
 def cases(rng, tier):
     yield from _clash_cases()
+    yield from _iterable_form_cases()
     yield from _wide_cases(rng, tier)
     for n in (1, 2, 3):
         # groups with nothing to measure (the forced dummy measurement)
@@ -157,9 +185,37 @@ def _cog(payload):
     return CommutingObservableGroup(Pauli(payload["general"][::-1]), [Pauli(m["l"][::-1]) for m in payload["members"]])
 
 
+_SALTED = {}
+
+
+def _salted_pauli(salt):
+    """A Pauli subclass that differs from Pauli only in a deterministic (process independent) hash: the iteration order of a `set` of
+    such objects is reproducible, and differs from salt to salt."""
+    if salt not in _SALTED:
+        import zlib
+        from qiskit.quantum_info import Pauli
+
+        class SaltedPauli(Pauli):
+            def __hash__(self):
+                return zlib.crc32(f"{salt}:{self.to_label()}".encode())
+        _SALTED[salt] = SaltedPauli
+    return _SALTED[salt]
+
+
 def _collection(payload):
+    from qiskit.quantum_info import Pauli
     from qiskit_addon_cutting.utils.observable_grouping import ObservableCollection
-    return ObservableCollection(_pl(payload["obs"]))
+    form = payload.get("form")
+    if not form:
+        return ObservableCollection(_pl(payload["obs"]))
+    # the Iterable[Pauli] input form (documented next to PauliList)
+    cls = _salted_pauli(payload.get("salt") or 0) if form == "salted" else Pauli
+    ps = [cls(["", "-i", "-", "i"][o.get("p", 0)] + o["l"][::-1]) for o in payload["obs"]]
+    if form == "tuple":
+        return ObservableCollection(tuple(ps))
+    if form == "generator":
+        return ObservableCollection(p for p in ps)
+    return ObservableCollection(ps)
 
 
 def model_line(kind, payload):
@@ -236,7 +292,7 @@ def describe(kind, payload):
     if kind == "decode_v2":
         return {"n": len(payload["subobs"][0][0]), "kind2": "decode_v2"}
     if kind == "collection":
-        return {"n": payload["n"], "nobs": len(payload["obs"])}
+        return {"n": payload["n"], "nobs": len(payload["obs"]), "input_form": payload.get("form") or "PauliList"}
     return {"n": payload["n"]}
 
 
@@ -324,18 +380,29 @@ def oracle(kind, payload):
         n = payload["n"]
         rng = random.Random(payload["prep_seed"])
         prep = gen.rand_instrs(rng, n, rng.randint(1, 6), barriers=False, families="integer")
+        how = f" (input form: {payload['form']}" + (f", salt {payload.get('salt')}" if payload["form"] == "salted" else "") + ")" if payload.get("form") else ""
         for g in oc.groups:
             gl = _ps(g.general_observable)["l"]
-            for m in g.commuting_observables:
+            # the recorded qubit indices are the support of the group's general observable ...
+            support = [i for i, c in enumerate(gl) if c != "I"]
+            if [int(i) for i in g.pauli_indices] != support:
+                return f"group {gl} records qubit indices {list(g.pauli_indices)}, its general observable acts on {support}{how}"
+            if len(g.pauli_bitmasks) != len(g.commuting_observables):
+                return f"group {gl} has {len(g.commuting_observables)} members but {len(g.pauli_bitmasks)} bitmasks{how}"
+            for m, mask in zip(g.commuting_observables, g.pauli_bitmasks):
                 ml = _ps(m)["l"]
                 if any(c != "I" and c != gl[i] for i, c in enumerate(ml)):
-                    return f"member {ml} incompatible with general observable {gl}"
+                    return f"member {ml} incompatible with general observable {gl} of its group{how}"
+                # ... and each bitmask marks exactly the measured positions on which the member acts
+                want = sum(1 << pos for pos, q in enumerate(support) if ml[q] != "I")
+                if int(mask) != want:
+                    return f"bitmask of member {ml} in group {gl} is {int(mask):b}, the member acts on measured positions {want:b}{how}"
             qc = canon.build_circuit({"nq": n, "instrs": prep})
             true = sem.expectations(qc, [_ps(m)["l"] for m in g.commuting_observables])
             qm = _append_measurement_circuit(_append_measurement_register(qc, g), g)
             dec = _decode(qm, g, g.commuting_observables)
             if not np.allclose(true, dec, atol=1e-9):
-                return f"decoded {dec} but true expectations are {true} for group {gl}"
+                return f"decoded {dec} but true expectations are {true} for group {gl}{how}"
         return None
     # measure
     if payload["wrong_width"]:
